@@ -344,6 +344,13 @@ def gen_cases(tier, seed0):
                         k += 1
                         yield {"shape": [ns, nc], "state": st, "gtype": gtype, "engine": engine, "isp": isp, "seed": sd,
                                "repeat": (k % 4 == 0) or (ns * nc <= 3 and isp != "none")}
+    # the ends and the middle of the seed range a script accepts (a seed is handed to the native code as a C integer)
+    for (ns, nc), st in (((1, 3), [0.5, 0.0, 1.75]), ((2, 2), [0.5, 1.75, 0.0, 100.0]), ((2, 3), [2.0, 99.5, 0.25, 150.25, 0.0, 3.5])):
+        for gtype in ("grid", "graph"):
+            for engine, isp in (("tauleap", "auto"), ("gillespie", "redist"), ("gillespie", "Poisson"), ("tauleap", "Poisson"),
+                                ("euler", "redist"), ("euler", "Poisson")):
+                for sd in (2 ** 31 - 1, 2 ** 31, 2 ** 31 + 12345, 2 ** 32 - 1):
+                    yield {"shape": [ns, nc], "state": st, "gtype": gtype, "engine": engine, "isp": isp, "seed": sd, "repeat": True}
     # the coarse-graining route (simulate_script with the identity index map) must process the state the same way
     cg_states = {(1, 3): [[0.5, 0.0, 1.75], [2.0, 99.5, 0.25], [3.0, 0.0, 4.0]],
                  (2, 2): [[0.5, 1.75, 0.0, 100.0], [1.0, 2.0, 3.0, 0.0], [0.25, 0.25, 0.25, 0.25]]}
@@ -542,7 +549,7 @@ def run(ctx):
     ctx.subspace("all assignments of the dyadic alphabet {0,1/4,1/2,1,7/4,2,99.5,100,150.25,1000} (<= 3 entries; 8 resp. 6 values for 4 "
                  "entries, 4 resp. 3 values for 6 entries, plus every placement of one large value) to (species,cells) in {(1,1),(1,3),(2,2),(2,3),(3,2)} x "
                  "{grid,graph} x 9 (engine, processing mode) combinations x seed window; + 6 states x 11 combinations through "
-                 "simulate_script(cgmap=identity); + 4 equal-mean states x {grid,graph} x 3 engines x 16-seed window (independence)", len(base), done[0],
+                 "simulate_script(cgmap=identity); + 3 states x {grid,graph} x 6 combinations x the seeds 2^31-1, 2^31, 2^31+12345, 2^32-1; + 4 equal-mean states x {grid,graph} x 3 engines x 16-seed window (independence)", len(base), done[0],
                  exhaustive=(done[0] == len(base)))
     ctx.subspace("units: states whose amounts IN MOLECULES are dyadic (all pairs of the 10-value alphabet for 1x2; {0,1/2,[1,]7/4}^4 for 2x2; "
                  "[{0,1/4,1,7/4,100}^3 for 1x3, thorough;] 4 states 2x3), handed over in the system's units x 6 (script units, system units) "
